@@ -28,7 +28,7 @@ from torch_frame.data.stats import StatType
 
 WORDS = ["a", "b", "c", "dd", "e e", "", "é", "漢", "Z", "0", "x|y", "NaN", "none"]
 TOKENS = ["a", "b", "c", "dd", "é", "z9", "Q"]
-FMTS = ["%Y-%m-%d %H:%M:%S", "%Y-%m-%d", "%Y/%m/%d", None, "datetime64"]
+FMTS = ["%Y-%m-%d %H:%M:%S", "%Y-%m-%d", "%Y/%m/%d", "%d/%m/%Y", "%d/%m/%Y %H:%M:%S", None, "datetime64"]
 
 
 # ------------------------------------------------------------------ generation
@@ -137,9 +137,12 @@ def gen_col(rng, name, st, n, miss_p, for_target=False):
                 d = rng.randint(1, [31, 29 if (y % 4 == 0 and (y % 100 != 0 or y % 400 == 0)) else 28, 31, 30, 31, 30,
                                     31, 31, 30, 31, 30, 31][m - 1])
                 hh, mm, ss = (rng.randint(0, 23), rng.randint(0, 59), rng.randint(0, 59)) \
-                    if fmt in ("%Y-%m-%d %H:%M:%S", "datetime64", None) else (0, 0, 0)
+                    if fmt in ("%Y-%m-%d %H:%M:%S", "%d/%m/%Y %H:%M:%S", "datetime64", None) else (0, 0, 0)
                 cells.append([y, m, d, hh, mm, ss])
         col["cells"] = cells
+        if fmt not in (None, "datetime64"):
+            # string-valued timestamp cells are held either as object or as pandas' native string dtype
+            col["dtype"] = rng.pick(["object", "str"])
         if fmt == "datetime64":
             col["dtype"] = "datetime64"
             # a time format may still be configured for a column that already holds datetimes
@@ -246,6 +249,10 @@ def fmt_time(cell, fmt):
         return f"{y:04d}-{m:02d}-{d:02d}"
     if fmt == "%Y/%m/%d":
         return f"{y:04d}/{m:02d}/{d:02d}"
+    if fmt == "%d/%m/%Y":
+        return f"{d:02d}/{m:02d}/{y:04d}"
+    if fmt == "%d/%m/%Y %H:%M:%S":
+        return f"{d:02d}/{m:02d}/{y:04d} {hh:02d}:{mm:02d}:{ss:02d}"
     return f"{y:04d}-{m:02d}-{d:02d} {hh:02d}:{mm:02d}:{ss:02d}"
 
 
@@ -270,7 +277,7 @@ def build_series(col):
                                                            second=c[5]) for c in cells]
             return pd.Series(vals, dtype="datetime64[us]")
         vals = [mv if c is None else fmt_time(c, col["fmt"]) for c in cells]
-        return pd.Series(vals, dtype=object)
+        return pd.Series(vals, dtype="str" if col["dtype"] == "str" else object)
     if st == "embedding":
         return pd.Series([list(c) for c in cells], dtype=object)
     if st == "sequence_numerical":
